@@ -20,7 +20,7 @@ from ..roles import bits_fn, bits_name
 from ..bitwin import BitsV, BytesV, ToBytesV, all_paths, holds
 from ..core import Ctx, PropSpec, Unsupported
 from ..extract import where
-from ..harness import Harness
+from ..harness import Harness, cursor
 from ..interp import BytesObj, Raised
 
 PK = "packets.py"
@@ -209,6 +209,15 @@ def witness_cases(thorough: bool):
                 cases.append((big, p, n))
     cases.append((big, 8 * big, 0))
     cases.append(("wide", 3, 16384))
+    # the windows of the CCSDS primary-header fields (and their neighbours) on a buffer that is NOT a well-formed packet: a read
+    # is a function of (buffer, cursor, width) only - the bits at 32..47 are whatever the buffer holds there
+    for p, n in ((0, 3), (3, 1), (4, 1), (5, 11), (16, 2), (18, 14), (32, 16), (0, 16), (16, 16), (0, 48), (32, 8), (40, 8), (48, 8), (31, 16), (33, 16)):
+        cases.append((big, p, n))
+        cases.append((7, p, n))
+    # buffers longer than the largest space packet (65542 octets) and reads that end beyond octet 65536
+    for L, p, n in ((65542, 8 * 65542 - 24, 24), (65542, 8 * 65536 - 4, 8), (65542, 8 * 65542 - 8, 8), (65542, 8 * 65542, 0), (70001, 8 * 70000, 8),
+                    (70001, 8 * 69990 + 3, 64)):
+        cases.append((L, p, n))
     if thorough:
         for p in range(0, 8 * 5 + 1):
             for n in range(0, 8 * 5 - p + 1):
@@ -228,13 +237,13 @@ def witness_search(ctx: Ctx, thorough: bool):
         try:
             for pat in PATTERNS:
                 for L, p, n in cases:
-                    buf = (pat * 160)[:2049] if L == "wide" else pat[:L]
+                    buf = (pat * 160)[:2049] if L == "wide" else (pat[:L] if L <= len(pat) else (pat * (L // len(pat) + 1))[:L])
                     obj = BytesObj(buf, cls="RawPacketData", pos=p)
                     kind, got = h.outcome(f"obj.{meth}(n)", PK, obj=obj, n=n)
                     bits = _bits(buf)[p:p + n]
                     val = int(bits, 2) if bits else 0
                     want = val if meth == "read_as_int" else val.to_bytes((n + 7) // 8, "big")
-                    newpos = obj.attrs.get("pos")
+                    newpos = cursor(h, obj)
                     if kind != "ok" or got != want or type(got).__mro__[-2] is not type(want) or newpos != p + n or bytes(obj) != buf:
                         bad = (f"buffer {(buf[:16].hex() + ('..' if len(buf) > 16 else '')) or '(empty)'} ({len(buf)} bytes) pos={p} n={n}: {meth} -> "
                                f"{('raises ' + got) if kind != 'ok' else _short(got)}, cursor {newpos}; "
@@ -261,14 +270,14 @@ def witness_search(ctx: Ctx, thorough: bool):
             for meth, setpos, n in order:
                 if setpos is not None:
                     obj.attrs["pos"] = setpos
-                p = obj.attrs.get("pos", 0)
+                p = cursor(h, obj)
                 if p + n > 8 * len(buf):
                     continue                     # the property speaks about reads inside the buffer
                 kind, got = h.outcome(f"obj.{meth}(n)", PK, obj=obj, n=n)
                 bits = _bits(buf)[p:p + n]
                 val = int(bits, 2) if bits else 0
                 want = val if meth == "read_as_int" else val.to_bytes((n + 7) // 8, "big")
-                if kind != "ok" or got != want or obj.attrs.get("pos") != p + n:
+                if kind != "ok" or got != want or cursor(h, obj) != p + n:
                     bad = (f"on one 48-byte packet, after earlier reads elsewhere: pos={p} n={n} {meth} -> "
                            f"{('raises ' + got) if kind != 'ok' else _short(got)}, cursor {obj.attrs.get('pos')}; expected {_short(want)}, cursor {p + n}")
                     break
@@ -284,7 +293,7 @@ def witness_search(ctx: Ctx, thorough: bool):
     try:
         for pat in PATTERNS[:2]:
             for L, p, n in cases:
-                buf = (pat * 160)[:2049] if L == "wide" else pat[:L]
+                buf = (pat * 160)[:2049] if L == "wide" else (pat[:L] if L <= len(pat) else (pat * (L // len(pat) + 1))[:L])
                 kind, got = h.outcome(f"{bits_name(prog)}(buf, p, n)", fi.relpath, buf=buf, p=p, n=n)
                 bits = _bits(buf)[p:p + n]
                 want = int(bits, 2) if bits else 0
